@@ -143,7 +143,18 @@ impl<'r> Gen<'r> {
 		} else {
 			*r.pick(&EDGE_LENS)
 		};
-		let cap = if elem_cost_small { 3 * 16384 + 2 } else { self.max_len.max(65) };
+		let cap = if elem_cost_small {
+			if self.allow_big {
+				3 * 16384 + 2
+			} else {
+				self.max_len.max(65)
+			}
+		} else if self.allow_big {
+			self.max_len.max(65)
+		} else {
+			// small mode: composite elements never exceed the configured maximum
+			self.max_len
+		};
 		n.min(cap)
 	}
 
@@ -216,7 +227,11 @@ impl<'r> Gen<'r> {
 				_ => Some(false),
 			}),
 			Ty::Seq { elem, elem_mem, .. } => {
-				let cheap = matches!(**elem, Ty::Int { .. } | Ty::F32 | Ty::F64 | Ty::Bool | Ty::Unit);
+				// elements that are cheap to generate in bulk: primitives, and small fixed-size
+				// composites of them (arrays / tuples / small structs), so that multi-chunk lengths are
+				// reached for element sizes that do not divide the 16 KiB window too
+				let cheap = matches!(**elem, Ty::Int { .. } | Ty::F32 | Ty::F64 | Ty::Bool | Ty::Unit) ||
+					(self.allow_big && elem.max_len().map_or(false, |m| m <= 8) && elem.min_len() >= 1 && !elem.is_recursive_named());
 				let n = if exhausted { 0 } else { self.seq_len(cheap, *elem_mem) };
 				let n = if cheap { n } else { n.min(self.budget.max(0) as usize) };
 				if cheap {
